@@ -227,7 +227,7 @@ def source_level_monotonicity(ctx: Ctx, n: int):
                 o2 = rules.run_rule(rules.build_rule(spec), r2[3])
                 ctx.evaluations += 2
                 if o1[0] == "PASS" and o2[0] != "PASS":
-                    ctx.violation(dict(dirs=[list(d) for d in dirs], file=scan.dotted(f), source_before=scan.render_file(files[f]["body"]), appended=scan.render_stmt(stmt)[0],
+                    ctx.violation(dict(dirs=[list(d) for d in dirs], file=scan.dotted(f), source_before=scan.render_v(files[f]), appended=scan.render_stmt(stmt)[0],
                                        rule=f"{a} should import {b}", before=o1[0], after=o2[0]),
                                   f"appending '{scan.render_stmt(stmt)[0]}' to {scan.dotted(f)} turned the passing rule '{a} should import {b}' into {o2[0]}", {"law": "monotone", "kind": "source"})
                     break
